@@ -18,6 +18,7 @@ import (
 // the listener is alive and deaf. The decrement has to be deferred (or sit in a deferred function).
 func c02CounterReleased(c *Ctx, rels ...string) {
 	const rule = "admission-counter-released"
+	c.Explanation += " An admission counter taken before a goroutine is started is given back by a deferred call when that goroutine recovers from panics."
 	p := c.P
 	type site struct {
 		call ssa.CallInstruction
